@@ -1,5 +1,6 @@
 (* Props/C08.v — a disk stream behaves as an immutable byte array under any access history. *)
 From Coq Require Import ZArith List.
+From DH Require Model.Qcow2 Proofs.Qcow2 Spec.Qcow2.
 From DH Require Import Base.Plan Base.Table Model.AlignedStream Proofs.AlignedStream Model.Lru Proofs.Lru
   Proofs.StreamReaders Model.AlignedStreamB Proofs.AlignedStreamB Proofs.StreamBytes Model.Vhd Proofs.Vhd Model.Vdi Proofs.Vdi Model.Vhdx Proofs.Vhdx Model.Hds Proofs.Hds.
 Open Scope Z_scope.
@@ -113,3 +114,13 @@ Proof.
   now apply vdi_contract.
 Qed.
 Print Assumptions C08_vdi_stream_bytes.
+
+(* QCOW2 (every conformant image, every cluster size, standard and extended L2): back-end contract
+   and hence the byte-level stream theorem *)
+Theorem C08_qcow2_backend :
+  forall (im : Model.Qcow2.image) align,
+  Proofs.Qcow2.wf_image im -> Spec.Qcow2.conformant (Model.Qcow2.spec_of im) (Model.Qcow2.size_of im) -> 0 < align ->
+  backend_ok (Model.Qcow2.size_of im) align
+    (blen_of (fun off len => Model.Qcow2.qcow2_read im (S (Z.to_nat (Z.min len (Model.Qcow2.size_of im - off)))) off len)).
+Proof. intros im a H1 H2 H3. exact (contract_backend_ok _ _ _ _ (qcow2_contract im a H1 H2 H3)). Qed.
+Print Assumptions C08_qcow2_backend.
